@@ -879,8 +879,11 @@ func plantInsertRange(t *rapid.T, a, b *State) string {
 		return "noop"
 	}
 	k := j
-	for k+1 < len(la) && !la[k+1].IsRemark && la[k+1].Permit == alpha {
+	for k+1 < len(la) && (la[k+1].IsRemark || la[k+1].Permit == alpha) {
 		k++
+	}
+	for k > j && la[k].IsRemark {
+		k--
 	}
 	if k == j {
 		return "noop"
@@ -903,12 +906,33 @@ func plantInsertRange(t *rapid.T, a, b *State) string {
 	if l.Key(false) == pp.Key(false) || d.Key(false) == pp.Key(false) {
 		return "noop"
 	}
-	b.ACLs[n] = append(lb[:i:i], append([]*Entry{{ACE: *l}, {ACE: d}, {ACE: *pp}}, lb[i:]...)...)
+	nb := append(lb[:i:i], append([]*Entry{{ACE: *l}, {ACE: d}, {ACE: *pp}}, lb[i:]...)...)
 	at := rapid.IntRange(j+1, k).Draw(t, "plantOld") + 1
-	a.ACLs[an[n]] = append(la[:at:at], append([]*Entry{{ACE: *l}}, la[at:]...)...)
+	na := append(la[:at:at], append([]*Entry{{ACE: *l}}, la[at:]...)...)
+	res := "plantInsertRange"
+	// A remark inside the run, between the run's first line and the old
+	// place of L, at the same place on both sides.
+	if rapid.Bool().Draw(t, "plantRemark") {
+		p := rapid.IntRange(j+1, at).Draw(t, "plantRemarkAt")
+		q := -1
+		for x, e := range nb {
+			if !e.IsRemark && !na[p-1].IsRemark && e.Key(true) == na[p-1].Key(true) {
+				q = x
+			}
+		}
+		if q >= 0 {
+			rem := Entry{ACE: ACE{IsRemark: true, Remark: "planted"}}
+			r1, r2 := rem, rem
+			na = append(na[:p:p], append([]*Entry{&r1}, na[p:]...)...)
+			nb = append(nb[:q+1:q+1], append([]*Entry{&r2}, nb[q+1:]...)...)
+			res = "plantInsertRangeRemark"
+		}
+	}
+	b.ACLs[n] = nb
+	a.ACLs[an[n]] = na
 	renumber(b.ACLs[n])
 	renumber(a.ACLs[an[n]])
-	return "plantInsertRange"
+	return res
 }
 
 type Pair struct {
